@@ -32,12 +32,16 @@ CLAIMS = {
         'text': 'Panic-freedom of the encoded apply and seal kernels (MIR built with overflow checks on): apply_tx_batch on a symbolic '
                 'transaction / batch, the DoscMint validation path with melpow\'s proof-map indexing made explicit, '
                 'Transaction::base_fee / weight, collect_proposer_action_fee, and the three melmint per-pool settlement functions on '
-                '1-2 requests against an arbitrary pool: every assert, overflow check, unwrap / expect / index and division forks a '
-                'path, and the panic side must be unreachable under P-SUPPLY (totals <= 2^127).',
+                '1-2 requests against ANY pool a request can name (reserves and liquidity in [0, 2^127]: user-created pools can be '
+                'drained or start one-sided; the exact panic regions of PoolState::{swap_many, deposit, withdraw} come from C16): '
+                'every assert, overflow check, unwrap / expect / index and division forks a path, and the panic side must be '
+                'unreachable under P-SUPPLY (totals <= 2^127). A call-site kernel discharges the precondition of the `expect` in '
+                'validate_and_get_doscmint_speed: check_tx_validity accepts no DoscMint transaction without inputs.',
         'design_ref': 'DESIGN.md §8 C09, §12',
         'note': COMMON_NOTE + ' Partial: create_builtins / process_pegging / apply_tip_909 and the fee-multiplier step (C17) are not '
                 're-run here; termination is by construction of the kernels (folds over the batch) plus C11; dependencies other than '
-                'the modelled melpow indexing are trusted not to panic. Two known findings (melpow verify, melstructs weight sum).',
+                'the modelled melpow indexing are trusted not to panic. Two known findings (melpow verify, melstructs weight sum); two '
+                'defects found here were repaired (zero-total requests, requests against a pool with an empty reserve).',
         'technique': 'bounded symbolic execution of rustc MIR; panic paths decided by z3 (bit-vectors) and, for the settlement '
                      'arithmetic, by an exact translation to non-linear integer arithmetic',
     },
@@ -47,23 +51,34 @@ CLAIMS = {
                 'requests and process_deposits_for_single_pool on 1 request against an arbitrary pool: the pool is updated by exactly '
                 'one PoolState operation on the totals, every request is paid in the right denomination its rounded-down pro-rata '
                 'share at the rewritten coin id, payouts never exceed what left the pool, other outputs untouched; multiply_frac = '
-                'floor(x*n/d). PoolState::{swap_many, deposit, withdraw} enter through contracts that C16 discharges on their MIR.',
+                'floor(x*n/d). PoolState::{swap_many, deposit, withdraw} enter through contracts that C16 discharges on their MIR. '
+                'Pool-key kernel ("however a request spells the name of its pool"): the real MIR of the request parser in use '
+                '(melstf requested_pool_key over melstructs PoolKey::from_bytes / to_canonical / new, Denom::from_bytes / to_bytes) '
+                'on EVERY byte string (lengths 0..=32 symbolic byte by byte, longer ones as 32 symbolic bytes + an arbitrarily '
+                'decoding tail): a parsed key has two different sides, neither is the NewCustom placeholder, and two keys that '
+                'address the same pool-tree entry (equal PoolKey::to_bytes) are the same (left, right) pair; every parser the '
+                'settlement code uses is discovered from the MIR, so a call site that goes back to the raw parser is analysed too.',
         'design_ref': 'DESIGN.md §8 C15, §12',
-        'note': COMMON_NOTE + ' PoolKey::from_bytes / to_bytes are functions of the bytes / key here (injective on canonical keys): the '
-                'non-canonical long-form spellings of a pool name are NOT decided. Known finding: the swap selector has no kind test.',
+        'note': COMMON_NOTE + ' In the selector / settlement kernels the request parser is an uninterpreted function of the data bytes and the tree key an '
+                'injective function of the (left, right) pair; the pool-key kernel discharges exactly that (assume-guarantee). '
+                'stdcode decoding of the long form\'s tail is an arbitrary Result<(Denom, Denom)> (A-CODEC). Known finding: the swap '
+                'selector has no kind test. Repaired: reversed / same-sided / placeholder spellings (1e8d350).',
         'technique': 'bounded symbolic execution of rustc MIR; mixed u128 / BigRational arithmetic decided after an exact translation '
                      'to non-linear integer arithmetic (z3, cvc5 second opinion); assume-guarantee with C16 for the pool operations',
     },
     'C16': {
         'text': 'Symbolic execution of the MIR of melstructs PoolState::{swap_many, deposit, withdraw} from an arbitrary pool state with '
-                'reserves and liquidity in [1, 2^127]: no panic, reserves stay non-zero after swaps and partial withdrawals, reserves '
+                'reserves and liquidity in [0, 2^127]: the EXACT panic regions (swap_many: a reserve still empty after the batch is paid '
+                'in; deposit into a pool with liquidity: an empty reserve; withdraw: more than recorded, or no liquidity), and outside '
+                'them: reserves stay non-zero after swaps and partial withdrawals of a pool with non-zero reserves, reserves '
                 'and liquidity move by exactly what is paid in / out, payouts are the rounded-down constant-product / pro-rata amounts, '
                 'the reserve product never decreases, liquidity is minted in proportion (rounded down); and the distribution of minted '
                 'liquidity to depositors (one depositor through process_deposits_for_single_pool, two at formula level).',
         'design_ref': 'DESIGN.md §8 C16, §12',
         'note': COMMON_NOTE + ' create_builtins is executed from an arbitrary pools tree (built-in pools present afterwards, fresh ones with '
                 '10^9 reserves, existing ones untouched) and the withdrawal selector is run here too; that pegging / subsidy only '
-                'apply swap_many to existing pools is C01\'s frame kernel. Induction over blocks is by the invariant, not explored. '
+                'apply swap_many to existing pools is C01\'s frame kernel; the pool-list kernel (a pool named by several requests is '
+                'settled once) is run here as well. Induction over blocks is by the invariant, not explored. '
                 'Known finding: several deposits in one block over-issue liquidity tokens.',
         'technique': 'bounded symbolic execution of rustc MIR; non-linear integer arithmetic after an exact translation (division '
                      'lemmas instead of div), lemma chaining between obligations of one path',
@@ -75,11 +90,15 @@ CLAIMS = {
                 'the coin height), stdcode(first input)) at the stated difficulty; on mainnet the coin is >= 100 blocks old; the ERG '
                 'created is <= dosc_to_erg(height, calculate_reward(speed, previous header speed, difficulty, variant)); the speed '
                 'returned is compute_doscmint_speed(...). Three formula kernels decide that those functions equal the stated '
-                'formulas for all arguments (difficulty <= 100), and the closures of the speed fold are filter(kind == DoscMint), '
-                'start at the previous speed, and take maxima. melpow verification itself is an uninterpreted predicate.',
+                'formulas for all arguments (difficulty <= 100; the reward formula case by case over the difficulty). Batch-level speed '
+                'kernel: apply_tx_batch_impl on 1-2 transactions of any kind from an arbitrary state, with validity / coin loading / '
+                'state building abstracted: accepted iff every DoscMint validates, and the speed afterwards is max(the state\'s speed '
+                'before, the speeds shown) -- the speed before may already exceed the previous header\'s (an earlier call at the same '
+                'height). The fold closures are also checked one by one. melpow verification itself is an uninterpreted predicate.',
         'design_ref': 'DESIGN.md §8 C18',
         'note': COMMON_NOTE + ' Replay generates real MelPoW proofs (difficulty 6, both hashes) and presents honest, excessive, '
-                'corrupted, mis-seeded and too-young mints to the real apply_tx.',
+                'corrupted, mis-seeded and too-young mints to the real apply_tx, lets the block go on after the mint (a later call at the '
+                'same height must keep the record) and hands the block built that way to its parent.',
         'technique': 'bounded symbolic execution of rustc MIR + z3 obligations; assume-guarantee split between the acceptance '
                      'kernel and three formula kernels (exact big-integer * and / kept as function symbols)',
     },
@@ -120,7 +139,8 @@ CLAIMS = {
     },
     'C04': {
         'text': 'Symbolic execution of the MIR of check_tx_validity and validate_tx_scripts for a transaction with two inputs '
-                'and two covenants: accepted => for EACH input some carried script hashes to that coin\'s covenant hash, '
+                'and two covenants, and for 9 inputs (thorough 3, 9, 17) with one covenant: accepted => for EACH (checked) input some '
+                'carried script hashes to that coin\'s covenant hash, '
                 'decodes, and evaluates truthy on (this transaction, that coin\'s own environment: its id, data, height, '
                 'its position among the inputs, the previous header); a missing script is NonexistentScript.',
         'design_ref': 'DESIGN.md §8 C04',
@@ -145,7 +165,8 @@ CLAIMS = {
                 'next_unsealed / apply_tx_batch / seal / header as recorded events: Ok iff the batch is accepted and all 11 '
                 'declared header fields equal the computed ones (each field separately), the batch handed to '
                 'apply_tx_batch is exactly block.transactions, the action handed to seal is block.proposer_action, the '
-                'state returned is the sealed basis; no panic.',
+                'state returned is the sealed basis; no panic. Replay: every single-field mutation of an honest block, and an honest block '
+                'whose transactions depend on each other across kinds (a real DoscMint and a spend of its output).',
         'design_ref': 'DESIGN.md §8 C06',
         'note': COMMON_NOTE + ' The four callees are abstract events here (their behaviour is the subject of the other checks; '
                 'determinism = C03). 1-2 transactions per block.',
@@ -157,7 +178,10 @@ CLAIMS = {
                 'hash of the header stored at height-1 (zero at genesis), scalar fields are copied; next_unsealed stores '
                 'exactly header(self) at the current height, advances the height by one, keeps the network and the other '
                 'trees, empties the transaction set; SmtMapping keys are hash(ser(k)), values ser(v), delete writes the '
-                'empty value, the proof returned is for that key; the stake tree holds exactly the stored stakes.',
+                'empty value, the proof returned is for that key; the stake tree holds exactly the stored stakes; the pre-TIP-908 '
+                'transaction root is the root of a tree built from the state\'s own transaction set holding every transaction\'s full '
+                'serialisation (signatures included) under its signature-free hash and nothing else -- with any process-wide mutable '
+                'static the function consults treated as an arbitrary input.',
         'design_ref': 'DESIGN.md §8 C07, §5.3',
         'note': COMMON_NOTE + ' NOT decided: that novasmt roots depend on contents only, that Merkle proofs verify, sorted '
                 'transaction positions (novasmt / imbl internals are hashing loops over pointer-rich trees: modelled by '
@@ -168,7 +192,8 @@ CLAIMS = {
         'text': 'Symbolic execution of the MIR of SealedState::to_block, header and from_block composed on an arbitrary '
                 'sealed state: every one of the 11 UnsealedState fields and the stored proposer action of '
                 'from_block(to_block(s), s.stakes, db) equals that of s (trees extensionally, transaction / stake sets as '
-                'maps). One known finding: pending tips are lost when the block was sealed without an action.',
+                'maps). One known finding: pending tips are lost when the block was sealed without an action. Replay also restarts at a '
+                'block carrying a Stake transaction that the state-transition function did not register.',
         'design_ref': 'DESIGN.md §8 C08',
         'note': COMMON_NOTE + ' Database::get_tree(root_hash(t)) = t (content-addressed store contract); 0-2 transactions, 2 stakes.',
         'technique': 'bounded symbolic execution of rustc MIR + z3 field-equality obligations',
@@ -188,7 +213,8 @@ CLAIMS = {
         'technique': 'bounded symbolic execution of rustc MIR (single-step lemmas) + z3 bit-vector obligations against a reference table',
     },
     'C11': {
-        'text': 'On the MIR of opcodes_weight / opcodes_car_weight and of Executor::run_to_end / step: every opcode weighs >= 1; '
+        'text': 'On the MIR of opcodes_weight / opcodes_car_weight and of Executor::run_to_end / step: every opcode weighs >= 1 and the '
+                'weigher continues with the instruction right behind it (every instruction is weighed, whatever jumps over it); '
                 'a loop weighs exactly 1 + n * W(the next min(k, remaining) instructions) and a program the saturating sum '
                 'of its car weights (compositional lemmas, all u16 parameters); symbolic control-flow programs (Noop, PushI, '
                 'Jmp, Bez, Loop with symbolic gaps / body lengths, iteration counts in [0,2]) never execute more steps than '
@@ -248,8 +274,9 @@ CLAIMS = {
                 'arbitrary coin tree satisfying the count invariant: for a universally quantified covenant hash a, the '
                 'stored count changes by exactly the change in the number of coins locked by a; a stored count is never '
                 '0; only the coin key and that covenant\'s count key are written; nothing is counted while TIP-906 is '
-                'off; the proposer-reward call site passes the state\'s own TIP-906 flag. Induction over operations '
-                'gives the property for every history.',
+                'off; the proposer-reward call site passes the state\'s own TIP-906 flag; the withdrawal and deposit selectors only '
+                'pass requests for which the settlement\'s insert_coin calls either hit a fresh id or keep the covenant hash '
+                '(insert_coin leaves the counts alone on a rewrite). Induction over operations gives the property for every history.',
         'design_ref': 'DESIGN.md §8 C20',
         'note': COMMON_NOTE + ' A-HASH, A-CODEC; novasmt::Tree modelled as a map (its Merkle internals are trusted).',
         'technique': 'bounded symbolic execution of rustc MIR + z3 inductive-step obligations over a lazily sampled array model',
